@@ -19,7 +19,7 @@ ALL = ["C01", "C02", "C03", "C04", "C06", "C07", "C08", "C09", "C10", "C11", "C1
 
 # property -> list of MC configurations (family, groups, msgids, qoss, maxevents quick/thorough, auth, creds)
 CONNECT = dict(family="connect", groups=["connect", "auth", "will", "sleep", "term", "other", "pub", "reg", "time"],
-               msgids=[1], qoss=[0, 3], depth=(4, 5), auth=[True, False], creds=[True, False])
+               msgids=[1], qoss=[0, 3], depth=(4, 5), auth=[True, False], creds=[True, False], pairs=True)
 DATA_PUB = dict(family="data", groups=["reg", "sub", "pub", "pubrel", "back", "time"], msgids=[1], qoss=[0, 1, 2, 3],
                 depth=(3, 4), auth=[False], creds=[False])
 DATA_BPUB = dict(family="data", groups=["reg", "sub", "bpub", "cack", "back", "time"], msgids=[1], qoss=[0, 1, 2],
@@ -62,6 +62,7 @@ def mc_cfg(c, depth, emit, fullonly=False):
         "SPECIFICATION Spec", "CONSTANTS",
         '  Family = "%s"' % c["family"], "  Groups = " + tla_set(c["groups"]), "  MaxEvents = %d" % depth,
         "  Emit = %s" % ("TRUE" if emit else "FALSE"), "  EmitFullOnly = %s" % ("TRUE" if fullonly else "FALSE"),
+        "  Emit2 = %s" % ("TRUE" if (emit and c.get("pairs") and not fullonly) else "FALSE"),
         "  MsgIds = " + tla_set(c["msgids"]),
         "  AuthModes = " + tla_set(c["auth"]), "  CredModes = " + tla_set(c["creds"]), "  Qoss = " + tla_set(c["qoss"]),
         "  Deviations = " + tla_set(sorted(k["sig"] for k in vlib.load_findings().get("known", [])
@@ -91,6 +92,13 @@ def ev_to_harness(e):
 
 
 def run_mc(c, tier, emit=True):
+    if tier == "thorough" and c.get("pairs"):
+        # transition pairs at the quick depth + plain transition tests one event deeper
+        r1, s1 = run_mc(dict(c, depth=(c["depth"][0], c["depth"][0])), "quick", emit)
+        r2, s2 = run_mc(dict(c, pairs=False), "thorough", emit)
+        r2["distinct"] += r1["distinct"]
+        r2["generated"] += r1["generated"]
+        return r2, s1 + s2
     depth = c["depth"][0 if tier == "quick" else 1]
     res = vlib.tlc("MC_GatewaySession", "mc.cfg", files={"mc.cfg": mc_cfg(c, depth, emit)},
                    workers=min(8, vlib.NCPU), timeout=1800 if tier == "thorough" else 900)
@@ -144,8 +152,8 @@ def shape(d):
 def stratified(scheds, budget, rnd):
     """Seeded sample of `budget` schedules that keeps every short schedule and spreads the rest evenly
     over the distinct shapes (so rare sequences are not drowned by the many variants of common ones)."""
-    if len(scheds) <= budget:
-        return scheds
+    if len(scheds) <= max(budget, 6000):
+        return scheds      # small state graphs are replayed completely also in the quick tier
     short = [d for d in scheds if len(d["events"]) <= 2]
     rest = [d for d in scheds if len(d["events"]) > 2]
     if len(short) > budget // 3:
@@ -275,8 +283,23 @@ def run(prop, tier, replay=None):
             states += res["distinct"]
             transitions += res["generated"]
             total = len(scheds)
+            # transition pairs repeat many plain transition tests: keep one copy of each event sequence
+            seen, uniq = set(), []
+            for d in scheds:
+                key = json.dumps(d["events"], sort_keys=True)
+                if key not in seen:
+                    seen.add(key)
+                    uniq.append(d)
+            scheds = uniq
+            total = len(scheds)
             if tier == "quick":
-                scheds = stratified(scheds, QUICK_SAMPLE, rnd)
+                if c.get("pairs"):
+                    dq = c["depth"][0]
+                    base = [d for d in scheds if len(d["events"]) <= dq]
+                    ext = [d for d in scheds if len(d["events"]) > dq]
+                    scheds = stratified(base, QUICK_SAMPLE, rnd) + stratified(ext, QUICK_SAMPLE, rnd)
+                else:
+                    scheds = stratified(scheds, QUICK_SAMPLE, rnd)
             mc_info.append(dict(config=c["family"] + ":" + "+".join(c["groups"]), distinct=res["distinct"],
                                 generated=res["generated"], schedules=total, executed=len(scheds)))
             scenarios += to_scenarios(scheds, "%s-mc%d" % (prop, k))
